@@ -85,64 +85,93 @@ def _pix(expr: str):
     return N.aff_key(N.affine(X.expr_of(expr)))
 
 
+def _abstract_mazes():
+    "abstract mazes: grid shapes incl. oblong and degenerate ones; for each, no edge, every edge, and each single edge alone (the writer treats edges independently)"
+    out = []
+    for r, c in ((2, 3), (3, 2), (1, 1), (1, 3), (2, 2)):
+        cells = [(d, i, j) for d in (0, 1) for i in range(r) for j in range(c)]
+        pats = [set(), set(cells)] + [{e} for e in cells]
+        for on in pats:
+            out.append((r, c, [[[(d, i, j) in on for j in range(c)] for i in range(r)] for d in (0, 1)]))
+    return out
+
+
+def _expected_pixels(r, c, cl):
+    g = [[False] * (2 * c + 1) for _ in range(2 * r + 1)]
+    for i in range(r):
+        for j in range(c):
+            g[2 * i + 1][2 * j + 1] = True
+            if cl[0][i][j]:
+                g[2 * i + 2][2 * j + 1] = True
+            if cl[1][i][j]:
+                g[2 * i + 1][2 * j + 2] = True
+    return g
+
+
 def rule_X2(ctx: Ctx) -> None:
-    # ---- writer
+    """writer and reader of the black/white pixel lattice by abstract evaluation over small abstract mazes (list-backed arrays):
+    the image is (2r+1) x (2c+1), cells open at odd/odd pixels, the pixel below / right of a cell open iff that edge is set; the
+    reader recovers exactly the connection list and grid shape from that image"""
+    from sa.absnp import MODELS, Arr
+    from sa.fold import EvalRaised, Evaluator, Obj, Unknown
+
+    def hook(ev, node, env):
+        d = dotted_of(node.func) or ""
+        if d in MODELS:
+            args = []
+            for a in node.args:
+                if isinstance(a, ast.Starred):
+                    args.extend(ev.ev(a.value, env))
+                else:
+                    args.append(ev.ev(a, env))
+            kwargs = {k.arg: ev.ev(k.value, env) for k in node.keywords if k.arg and k.arg != "dtype"}
+            try:
+                return MODELS[d](*args, **kwargs)
+            except (ValueError, IndexError) as e:
+                raise EvalRaised(type(e).__name__, str(e))
+            except Exception as e:
+                raise Unknown(f"model of {d}: {e}")
+        return NotImplemented
     w = ctx.index.func(f"{LM}.LatticeMaze._as_pixels_bw")
-    alloc = X.assignments_to(w.node, "pixel_grid")
-    exp = "image shape (2*rows+1, 2*cols+1), all wall initially; cells at [1::2, 1::2]"
-    ok = None
-    if len(alloc) == 1 and isinstance(alloc[0], ast.Call) and dotted_of(alloc[0].func) in ("np.full", "np.zeros"):
-        shp = alloc[0].args[0]
-        if isinstance(shp, ast.Tuple) and len(shp.elts) == 2:
-            ok = N.aff_eq(shp.elts[0], X.expr_of("2 * self.grid_shape[0] + 1")) and N.aff_eq(shp.elts[1], X.expr_of("2 * self.grid_shape[1] + 1"))
-            fill = alloc[0].args[1] if len(alloc[0].args) > 1 else None
-            if dotted_of(alloc[0].func) == "np.full":
-                ok = ok and isinstance(fill, ast.Constant) and fill.value is False
-    cells = [s for s in w.node.body if isinstance(s, ast.Assign) and isinstance(s.targets[0], ast.Subscript) and X.U(s.targets[0].value) == "pixel_grid"
-             and isinstance(s.value, ast.Constant) and s.value.value is True]
-    odd = ("slice", N.aff_key(N.affine(ast.Constant(1))), None, N.aff_key(N.affine(ast.Constant(2))))
-    cell_ok = len(cells) == 1 and [N.slice_form(p) for p in N.subscript_parts(cells[0].targets[0])] == [odd, odd]
-    ctx.judge(w, None if ok is None else (ok and cell_ok), {"allocation": X.U(alloc[0])[:100] if alloc else None, "cells": X.U(cells[0]) if cells else None}, exp,
-              "image size or the cell lattice is off: border not wall / cells not at odd pixels")
-    loops = [n for n in w.node.body if isinstance(n, ast.For)]
-    seen = {}
-    for lp in loops:
-        it = lp.iter
-        layer = None
-        if isinstance(it, ast.Call) and dotted_of(it.func) == "enumerate" and isinstance(it.args[0], ast.Subscript) and X.U(it.args[0].value) == "self.connection_list":
-            layer = N.const_int(it.args[0].slice)
-        i = lp.target.elts[0].id if isinstance(lp.target, ast.Tuple) else None
-        inner = [n for n in lp.body if isinstance(n, ast.For)]
-        if layer is None or not inner or not isinstance(inner[0].target, ast.Tuple):
-            ctx.unknown(w, {"loop": X.U(lp.iter)}, "enumerate(self.connection_list[d]) with an inner enumerate(row)")
-            continue
-        j = inner[0].target.elts[0].id
-        cv = inner[0].target.elts[1].id
-        st = [s for s in ast.walk(inner[0]) if isinstance(s, ast.Assign) and isinstance(s.targets[0], ast.Subscript) and X.U(s.targets[0].value) == "pixel_grid"]
-        guard = [n for n in inner[0].body if isinstance(n, ast.If) and X.U(n.test) == cv]
-        want = {0: (_pix(f"2 * {i} + 2"), _pix(f"2 * {j} + 1")), 1: (_pix(f"2 * {i} + 1"), _pix(f"2 * {j} + 2"))}[layer]
-        ok = len(st) == 1 and bool(guard) and tuple(N.aff_key(N.affine(p)) for p in N.subscript_parts(st[0].targets[0])) == want \
-            and isinstance(st[0].value, ast.Constant) and st[0].value.value is True
-        seen[layer] = ok
-        ctx.judge(w, ok, {"layer": layer, "pixel": X.U(st[0].targets[0]) if st else None, "guard": X.U(guard[0].test) if guard else None},
-                  "layer 0 (down) edge (i,j)-(i+1,j) opens pixel (2i+2, 2j+1); layer 1 (right) edge (i,j)-(i,j+1) opens pixel (2i+1, 2j+2); only when connected",
-                  "the pixel between two cells does not reflect their connection (row/column swap or off-by-one on the odd/even lattice)", node=lp)
-    if set(seen) != {0, 1}:
-        ctx.unknown(w, {"layers_drawn": sorted(seen)}, "both layers drawn")
-    # ---- reader
-    r = ctx.index.func(f"{LM}.LatticeMaze._from_pixel_grid_bw")
-    even = ("slice", N.aff_key(N.affine(ast.Constant(2))), None, N.aff_key(N.affine(ast.Constant(2))))
-    for layer, want in ((0, [even, odd]), (1, [odd, even])):
-        st = [s for s in ast.walk(r.node) if isinstance(s, ast.Assign) and isinstance(s.targets[0], ast.Subscript) and X.U(s.targets[0].value) == "connection_list"
-              and N.const_int(s.targets[0].slice) == layer]
-        ok = len(st) == 1 and isinstance(st[0].value, ast.Subscript) and X.U(st[0].value.value) == r.params()[1] \
-            and [N.slice_form(p) for p in N.subscript_parts(st[0].value)] == want
-        ctx.judge(r, ok, {"layer": layer, "read": X.U(st[0]) if st else None},
-                  "reader: layer 0 = pixel_grid[2::2, 1::2], layer 1 = pixel_grid[1::2, 2::2] (the writer's edge pixels)",
-                  "reading the image back yields a different connection structure")
-    gs = X.assignments_to(r.node, "grid_shape")
-    ok = len(gs) == 1 and isinstance(gs[0], ast.Tuple) and [X.U(e) for e in gs[0].elts] == [X.CT(f"{r.params()[1]}.shape[0]//2"), X.CT(f"{r.params()[1]}.shape[1]//2")]
-    ctx.judge(r, ok, {"grid_shape": X.U(gs[0]) if gs else None}, "grid shape = image shape // 2 per axis")
+    r_ = ctx.index.func(f"{LM}.LatticeMaze._from_pixel_grid_bw")
+    mazes = _abstract_mazes()
+    bad_w, bad_r, unk = [], [], []
+    for r, c, cl in mazes:
+        want = _expected_pixels(r, c, cl)
+        me = Obj("maze", {"connection_list": Arr([[list(row) for row in layer] for layer in cl]), "grid_shape": (r, c), "lattice_dim": 2, "grid_n": r})
+        try:
+            got = Evaluator({"__call__": hook}).run_body(X.body_wo_doc(w.node), {w.params()[0]: me})
+            gd = got.data if isinstance(got, Arr) else got
+        except EvalRaised as e:
+            gd = f"raises {e.exc_name}"
+        except Unknown as e:
+            unk.append("writer: " + str(e)[:120])
+            gd = None
+        if gd is not None and gd != want and len(bad_w) < 3:
+            bad_w.append({"grid": (r, c), "edges_set": sum(x for layer in cl for row in layer for x in row), "found": repr(gd)[:160], "expected": repr(want)[:160]})
+        try:
+            pr = r_.params()
+            env = {pr[-1]: Arr([list(row) for row in want])}
+            if len(pr) > 1:
+                env[pr[0]] = "cls"
+            back = Evaluator({"__call__": hook}).run_body(X.body_wo_doc(r_.node), env)
+            bcl, bshape = (back[0], back[1]) if isinstance(back, (tuple, list)) and len(back) == 2 else (back, None)
+            bd = bcl.data if isinstance(bcl, Arr) else bcl
+            okb = bd == cl and tuple(bshape) == (r, c)
+        except EvalRaised as e:
+            okb, bd = False, f"raises {e.exc_name}"
+        except Unknown as e:
+            unk.append("reader: " + str(e)[:120])
+            okb = True
+        if not okb and len(bad_r) < 3:
+            bad_r.append({"grid": (r, c), "found": repr(bd)[:160], "expected": repr(cl)[:160]})
+    ctx.judge(w, False if bad_w else None if any(u.startswith("writer") for u in unk) else True, {"abstract_mazes": len(mazes), "deviations": bad_w, "undecided": [u for u in unk if u.startswith("writer")][:2]},
+              "image shape (2*rows+1, 2*cols+1), all wall initially; cells at odd/odd pixels; layer 0 (down) edge (i,j)-(i+1,j) opens pixel (2i+2, 2j+1); "
+              "layer 1 (right) edge (i,j)-(i,j+1) opens pixel (2i+1, 2j+2); only when connected",
+              "the pixel between two cells does not reflect their connection (row/column swap or off-by-one on the odd/even lattice), or the image size is off")
+    ctx.judge(r_, False if bad_r else None if any(u.startswith("reader") for u in unk) else True, {"abstract_mazes": len(mazes), "deviations": bad_r, "undecided": [u for u in unk if u.startswith("reader")][:2]},
+              "reader: layer 0 = the pixels below the cells, layer 1 = the pixels right of the cells (the writer's edge pixels); grid shape = image shape // 2 per axis",
+              "reading the image back yields a different connection structure")
     # ---- coordinate recovery
     p = ctx.index.func(f"{LM}.LatticeMaze._from_pixel_grid_with_positions")
     # normalised shape: `[(pos[0] // 2, pos[1] // 2) for pos in <argwhere> if pos[0] % 2 == 1 and pos[1] % 2 == 1]`
@@ -352,7 +381,7 @@ def rule_X5(ctx: Ctx) -> None:
 
 RULES = [
     Rule("C10.X1", rule_X1, floor=12, doc="render table over 12 configurations"),
-    Rule("C10.X2", rule_X2, floor=12, doc="pixel lattice agreement"),
+    Rule("C10.X2", rule_X2, floor=8, doc="pixel lattice agreement"),
     Rule("C10.X3", rule_X3, floor=9, doc="colour/character bijection and ASCII plumbing"),
     Rule("C10.X4", rule_X4, floor=12, doc="kind detection table and read-back plumbing"),
     Rule("C10.X5", rule_X5, floor=4, doc="rendering purity"),
